@@ -593,7 +593,7 @@ func registerImportChecks() {
 	// C19: exhaustive combinations
 	mk("C19", true, func(cx *CheckCtx) []*Case {
 		var cs []*Case
-		preambles := [][]string{nil, {"#include <a.h>"}, {"#include <a.h>\n#include <b.h>"}, {"// #include <raw.h>"}, {"#include <a.h>", "/* second */", "int x;"}}
+		preambles := [][]string{nil, {"#include <a.h>"}, {"#include <a.h>\n#include <b.h>"}, {"// #include <raw.h>"}, {"#include <a.h>", "/* second */", "int x;"}, {"#include <a.h>", "#include <a.h>"}, {"#define T int", "#include \"v.h\"", "#undef T\n#define T float", "#include \"v.h\""}}
 		others := [][]string{nil, {"fmt"}, {"a.com/d", "b.com/d", "os"}, {"x.com/c"}, {"a.com/C"},
 			{"9fans.net/go/acme", "fmt"}, {"Azure.com/sdk", "B.io/x"}, {"-x.org/y"}}
 		n := 0
